@@ -463,13 +463,17 @@ pub fn run(run: &mut Run) {
     let l1 = if thorough {
         Sel { m3: true, ep: Some(false), castle: Some(false), promo: Some(false), reach: Some(3), ..Default::default() }
     } else {
-        Sel { reach: Some(2), ..Default::default() }
+        Sel { reach: Some(2), reach_take: 11, ..Default::default() }
     };
     run_universes(run, &l1, DISAGREE, &check_pos_mid);
     let l0 = if thorough {
-        Sel { ep: Some(true), castle: Some(true), promo: Some(true), reach: Some(4), counters: true, pin2: Some(4), pawncap2: true, promo2: true, clocks: true, multicheck: Some(3), checkpin: Some(3), castle2: true, counts: true, hist: Some((3, 2)), ..Default::default() }
+        Sel { ep: Some(true), castle: Some(true), promo: Some(true), reach: Some(4), counters: true, pin2: Some(4), pawncap2: true, promo2: true, clocks: true, multicheck: Some(3), checkpin: Some(3), castle2: true, hemmed: true, counts: true, promorow: true, hist: Some((3, 2)), ..Default::default() }
     } else {
-        Sel { ep: Some(false), ep_spread_only: true, castle: Some(false), promo: Some(false), reach: Some(3), counters: true, pin2: Some(2), pawncap2: true, checkpin: Some(1), castle2: true, counts: true, ..Default::default() }
+        // quick: the small targeted families first, so that a slow machine's time budget cuts
+        // into the large generic ones (REACH(3) last) and never skips a family entirely
+        let small = Sel { castle: Some(false), promo: Some(false), counters: true, checkpin: Some(1), castle2: true, hemmed: true, counts: true, ..Default::default() };
+        run_universes(run, &small, DISAGREE, &check_pos);
+        Sel { ep: Some(false), ep_spread_only: true, pin2: Some(2), pawncap2: true, pawncap2_light: true, reach: Some(3), reach_take: 11, ..Default::default() }
     };
     run_universes(run, &l0, DISAGREE, &check_pos);
     p30_strings(run, if thorough { 4 } else { 3 });
